@@ -15,7 +15,8 @@ Range(s) == {s[i] : i \in DOMAIN s}
 Bag(s) == [x \in Range(s) |-> Cardinality({i \in DOMAIN s : s[i] = x})]
 Item(p, k, w, t) == [prop |-> p, kind |-> k, where |-> w, tags |-> t]
 
-Selected(f) == f.pathKind \in {"main", "maven"}      \* non-test, non-ignored .java files
+\* non-test, non-ignored .java files; "neartest" = below a directory whose name merely begins like the test root (src/test/java8)
+Selected(f) == f.pathKind \in {"main", "maven", "neartest"}
 KindName(u) == IF u.kind = "class" THEN "Class" ELSE "Interface"
 
 IsFn(m) == m.kind \in {"ctor", "method"}
